@@ -38,7 +38,7 @@ class HeapGen:
         return str(self.r.choice(live))
 
     def is_symbol(self, k):
-        return k in ('sym', 'gensym', 'meta:sym', 'meta:gensym')
+        return k in ('sym', 'gensym', 'symtwin', 'meta:sym', 'meta:gensym', 'meta:symtwin')
 
     def emit(self, line):
         self.lines.append('h ' + line)
@@ -102,6 +102,23 @@ class HeapGen:
             self.emit(f'gensym {d}')
             self.slots[d] = 'gensym'
             self.note('gensym')
+            if not getattr(self, 'twinned', False) and r.random() < 0.35:
+                # the printed name of this generated symbol (#<symbol-0x…>) interned as an ordinary named symbol, as the reader
+                # does when such a text is typed back in; at most one generated symbol per history gets such a twin
+                self.twinned = True
+                t = self.free_slot()
+                self.emit(f'symprint {t} {d}')
+                self.slots[t] = 'symtwin'
+                self.note('intern')
+                self.emit(f'symeq {t} {d}')
+        twins = [i for i, k in self.slots.items() if k == 'symtwin']
+        if twins and r.random() < 0.3:
+            # the same name again, later — possibly after the generated symbol itself was reclaimed
+            t = self.free_slot()
+            self.emit(f'symprint {t} {r.choice(twins)}')
+            self.slots[t] = 'symtwin'
+            self.note('intern')
+            self.emit(f'symeq {t} {r.choice(twins)}')
         if r.random() < 0.4:
             a = self.pick(self.is_symbol, allow_nil=False)
             b = self.pick(self.is_symbol, allow_nil=False)
